@@ -71,7 +71,8 @@ def schemes(draw, *, labels="neutral", allow_full=True, max_datasets=4, features
         groups["g2"] = {"residual_function": draw(st.sampled_from(["variable_projection", "non_negative_least_squares"])),
                         "link_clp": draw(st.sampled_from([True, False, None]))}
     if labels == "neutral":
-        ds_labels = NEUTRAL_DS[:n_ds]
+        # (declaration order is not the lexicographic order of the labels in a quarter of the cases - as with dataset10 < dataset2)
+        ds_labels = list(draw(st.permutations(NEUTRAL_DS[:n_ds]))) if draw(st.integers(0, 3)) == 0 else NEUTRAL_DS[:n_ds]
     else:
         ds_labels = draw(st.lists(st.sampled_from(CONFUSABLE_DS), min_size=n_ds, max_size=n_ds, unique=True))
 
